@@ -467,6 +467,17 @@ func (e *Exec) sliceOp(st *State, x *ssa.Slice) {
 		hi := get(x.High, n)
 		mx := get(x.Max, n)
 		e.check(st, "slice", lbl, and(e.le(z, lo), e.le(lo, hi), e.le(hi, mx), e.le(mx, n)), x.Pos())
+		if base.A == nil || (base.A.Kind == ACell && len(base.A.Steps) == 0) {
+			// the array cell lives in the element memory: the slice aliases it
+			ref := base.S
+			if base.A != nil {
+				ref = base.A.Ref
+			} else {
+				e.checkNonNil(st, ref, lbl, x.Pos())
+			}
+			e.setTerm(st, x, fmt.Sprintf("(mk-slice %s %s %s %s)", ref, lo, e.sub(hi, lo), e.sub(mx, lo)))
+			return
+		}
 		// materialise the array as a fresh backing store holding the current contents
 		var cur string
 		if base.A != nil {
